@@ -14,7 +14,7 @@ use super::V1;
 fn wrap_keys(
     pass: &[u8],
     prefix: &Prefix,
-) -> (ctr::Ctr64BE<aes::Aes256>, hmac::Hmac<sha2::Sha384>) {
+) -> (ctr::Ctr128BE<aes::Aes256>, hmac::Hmac<sha2::Sha384>) {
     use cipher::KeyIvInit;
 
     let key = pbkdf2::pbkdf2_array::<hmac::Hmac<sha2::Sha384>, 32>(
@@ -27,7 +27,7 @@ fn wrap_keys(
     let (ek, _) = kdf(&key, 0xFF).split();
     let ak = kdf(&key, 0xFE);
 
-    let cipher = ctr::Ctr64BE::<aes::Aes256>::new(&ek, (&prefix.nonce).into());
+    let cipher = ctr::Ctr128BE::<aes::Aes256>::new(&ek, (&prefix.nonce).into());
     let mac = hmac::Hmac::new_from_slice(&ak).expect("key should be valid");
     (cipher, mac)
 }
